@@ -2,6 +2,7 @@ package rules
 
 import (
 	"go/token"
+	"go/types"
 	"strings"
 
 	"golang.org/x/tools/go/ssa"
@@ -16,7 +17,7 @@ func init() {
 			"the single goroutine launch that can execute a step is dominated by `status==not-started` and `isReady(g,node)` for the node being launched (C01.gate)",
 			"isReady's accumulator can only stay true across a dependency in the three licensed cells {finished}, {failed & continueOn.failure}, {skipped & continueOn.skipped}, for every NodeStatus constant and the default branch; it is never overwritten with another value (C01.ready-table)",
 			"isReady returns non-false only after the range over all dependencies is exhausted (C01.ready-all-deps)",
-			"every Depends entry becomes an edge in both adjacency maps or the lookup error is returned; isReady iterates g.to[node.id] (C01.edges)",
+			"every Depends entry becomes an edge in both adjacency maps or the lookup error is returned; isReady iterates g.to[node.id]; a Depends entry is resolved to the node whose Step.Name equals it (string equality, or a map lookup under the entry) (C01.edges)",
 			"the loop goroutine itself flips the node to running between the gate and the go statement (C01.flip-first)",
 			"on the retry path the step returns to not-started only after sleeping RetryPolicy.Interval (C01.retry-reset-late)",
 			"after that hand-back the old worker stores no further status of the node on its way out, so a relaunched attempt cannot be labelled finished by the previous attempt's goroutine (C01.no-status-after-handback)",
@@ -126,14 +127,21 @@ func c01ReadyTable(e *Env, s *Sched, withReturn bool) {
 		}
 	}
 	// accumulator: a bool phi at the loop header
+	// accumulator: a bool phi at the loop header (`ready`), or an int phi counting the
+	// dependencies that hold the node back (`blocked++`; the verdict is `blocked == 0`)
 	var acc *ssa.Phi
+	counting := false
 	for _, in := range loop.Header.Instrs {
 		if p, ok := in.(*ssa.Phi); ok {
-			if b, ok := p.Type().Underlying().(interface{ Info() int }); ok {
-				_ = b
-			}
 			if p.Type().String() == "bool" {
 				acc = p
+			}
+		}
+	}
+	if acc == nil {
+		for _, in := range loop.Header.Instrs {
+			if p, ok := in.(*ssa.Phi); ok && p.Type().String() == "int" && p.Comment != "rangeindex" {
+				acc, counting = p, true
 			}
 		}
 	}
@@ -149,7 +157,12 @@ func c01ReadyTable(e *Env, s *Sched, withReturn bool) {
 	checkKeep := func(blk *ssa.BasicBlock, k int) {
 		// the accumulator is kept across this edge: the dependency must be in a licensed cell
 		for _, lits := range e.expandHelperCalls(e.DCSPhiEdge(blk, k), 0) {
-			checkKeepLits(blk, k, lits)
+			// a table of per-status rules (possibly with functions as entries) is a case distinction
+			for _, ta := range e.expandTableFields(lits) {
+				undo := ir.SetOverride(ta.Bind)
+				checkKeepLits(blk, k, ta.Lits)
+				undo()
+			}
 		}
 	}
 	checkKeepLits = func(blk *ssa.BasicBlock, k int, lits []ir.NLit) {
@@ -205,6 +218,27 @@ func c01ReadyTable(e *Env, s *Sched, withReturn bool) {
 			checkKeep(blk, k)
 			return
 		}
+		if counting {
+			// blocked+1: this dependency holds the node back - always allowed
+			if bo, ok := v.(*ssa.BinOp); ok && bo.Op == token.ADD && bo.X == ssa.Value(acc) {
+				if c, isK := ir.ConstInt(bo.Y); isK && c > 0 {
+					return
+				}
+			}
+			if p, ok := v.(*ssa.Phi); ok && loop.Blocks[p.Block()] && depth < 12 {
+				if seenPhi[p] {
+					return
+				}
+				seenPhi[p] = true
+				for i, ed := range p.Edges {
+					walk(ed, p.Block(), i, depth+1)
+				}
+				return
+			}
+			r.Bad("isReady: accumulator overwritten with a computed value", e.InstrPos(blk.Preds[k].Instrs[len(blk.Preds[k].Instrs)-1]),
+				"the count of blocking dependencies is assigned "+e.C.Render(v)+" inside the dependency loop instead of only growing")
+			return
+		}
 		if b, ok := ir.ConstBool(v); ok {
 			if !b {
 				return // cleared: always allowed
@@ -228,7 +262,13 @@ func c01ReadyTable(e *Env, s *Sched, withReturn bool) {
 	}
 	for k, ed := range acc.Edges {
 		if !loop.Blocks[loop.Header.Preds[k]] {
-			// entry edge: initial value must be the constant true (or false)
+			// entry edge: initial value must be the constant true (or false); a counter starts at a constant
+			if counting {
+				if c, ok := ir.ConstInt(ed); !ok || c < 0 {
+					r.Unknown("isReady: accumulator initial value", e.Pos(fn.Pos()), "the counter of blocking dependencies does not start at a non-negative constant: "+e.C.Render(ed))
+				}
+				continue
+			}
 			if _, ok := ir.ConstBool(ed); !ok {
 				r.Unknown("isReady: accumulator initial value", e.Pos(fn.Pos()), "initial value of the accumulator is not a constant: "+e.C.Render(ed))
 			}
@@ -254,6 +294,24 @@ func c01ReadyTable(e *Env, s *Sched, withReturn bool) {
 		if b, ok := ir.ConstBool(v); ok && !b {
 			r.OK("isReady: return false", pos, "returning false is always allowed")
 			continue
+		}
+		if counting {
+			n := ir.Normalize(ir.Lit{Cond: rt.Results[0], Pol: true})
+			zero := false
+			if n.Kind == "cmp" && n.Op == token.EQL {
+				if c, isK := ir.ConstInt(n.Y); isK && c == 0 && ir.Resolve(n.X) == ssa.Value(acc) {
+					zero = true
+				}
+				if c, isK := ir.ConstInt(n.X); isK && c == 0 && ir.Resolve(n.Y) == ssa.Value(acc) {
+					zero = true
+				}
+			}
+			if !zero {
+				r.Bad("isReady: return of a value other than the accumulator", pos,
+					"isReady returns "+e.C.Render(v)+": not `no dependency holds the node back` over all dependencies")
+				continue
+			}
+			v = acc
 		}
 		if v != acc {
 			r.Bad("isReady: return of a value other than the accumulator", pos,
@@ -401,6 +459,172 @@ func c01Edges(e *Env, s *Sched) {
 	})
 	r.Check(bad == nil, "graph setup: each Depends entry → edge or error return", e.InstrPos(body.Instrs[0]),
 		"an iteration over Depends can finish without adding the edge or returning the lookup error (dependency silently dropped, or the setup stops there and reports success)")
+	c01Resolver(e, setup, dl)
+}
+
+// c01Resolver: the step a Depends entry is resolved to is the step of exactly that
+// name. By role the resolver is the function of the scheduler package that the loop
+// over Step.Depends calls with the entry and that answers with a *Node (or the entry
+// indexes a map directly). Every way it answers with a node has `node…Step.Name ==
+// entry` (string equality) among its conditions, or the node is what a map holds
+// under the entry as key. A looser match (case folding, prefix, trimmed) binds an
+// entry to another step when two names differ only in what the match ignores: the
+// dependent then waits for the wrong step.
+func c01Resolver(e *Env, setup *ssa.Function, dl *ir.Loop) {
+	r := e.R
+	isNodePtr := func(t types.Type) bool {
+		_, isP := t.(*types.Pointer)
+		return isP && strings.HasSuffix(ir.NamedType(t), schedRel+".Node")
+	}
+	entry := dl.Elem
+	if entry == nil {
+		r.Unknown("graph setup: the Depends entry being resolved", e.Pos(setup.Pos()), "loop element not identified")
+		return
+	}
+	isEntry := func(v ssa.Value) bool { return SameValue(ir.Resolve(v), ir.Resolve(entry)) }
+	n := 0
+	for _, b := range sortedBlocks(dl.Blocks) {
+		for _, in := range b.Instrs {
+			switch x := in.(type) {
+			case *ssa.Lookup:
+				if isEntry(x.Index) {
+					n++
+					r.OK("graph setup: a Depends entry is resolved to the step of exactly that name", e.InstrPos(x), "map lookup under the entry as key")
+				}
+			case *ssa.Call:
+				g := x.Call.StaticCallee()
+				if g == nil || !e.P.Funcs[g] || g.Blocks == nil {
+					continue
+				}
+				pi := -1
+				for k, a := range x.Call.Args {
+					if isEntry(a) {
+						pi = k
+					}
+				}
+				res := g.Signature.Results()
+				if pi < 0 || res.Len() == 0 || !isNodePtr(res.At(0).Type()) {
+					continue
+				}
+				n++
+				name := g.Params[pi]
+				isName := func(v ssa.Value) bool {
+					return ir.Resolve(v) == ssa.Value(name) || ir.Deep(v) == ir.Deep(name)
+				}
+				okAll := true
+				var facts []string
+				nRet := 0
+				for _, bb := range g.Blocks {
+					rt, isR := bb.Instrs[len(bb.Instrs)-1].(*ssa.Return)
+					if !isR || !e.Facts(g).Reachable(bb) {
+						continue
+					}
+					for _, v := range RetVals(rt, 0) {
+						for _, leaf := range phiLeaves(v) {
+							if ir.IsNilConst(ir.Resolve(leaf)) {
+								continue
+							}
+							nRet++
+							// a node taken from a map under the name
+							if lk, isL := lookupOf(leaf); isL && isName(lk.Index) {
+								continue
+							}
+							okWay := true
+							nw := 0
+							e.ways(e.DCS(rt), func(alt []ir.NLit) {
+								nw++
+								has := false
+								for _, l := range alt {
+									if l.Kind != "cmp" || l.Op != token.EQL {
+										continue
+									}
+									for _, sw := range [2]bool{false, true} {
+										a, bv := l.X, l.Y
+										if sw {
+											a, bv = l.Y, l.X
+										}
+										if pa, okp := e.C.PathOf(a); okp && pa.Suffix("Step.Name") && isName(bv) {
+											has = true
+										}
+									}
+								}
+								if !has {
+									okWay = false
+								}
+							})
+							if nw == 0 || !okWay {
+								okAll = false
+								facts = append(facts, "node returned at "+e.InstrPos(rt)+" "+e.FactsStr("under: ", e.DCS(rt)))
+							}
+						}
+					}
+				}
+				if nRet == 0 {
+					okAll = false
+					facts = append(facts, "no return of a node found")
+				}
+				r.Check(okAll, "graph setup: a Depends entry is resolved to the step of exactly that name", e.InstrPos(x),
+					"the lookup that turns a `depends` entry into a node does not require the step's name to equal the entry: with two steps whose names differ only in what the match ignores, the dependent is wired to (and waits for) the wrong step", facts...)
+			}
+		}
+	}
+	if n == 0 {
+		// the lookup written in place: a walk over the nodes that keeps the candidate whose
+		// name equals the entry (`for _, c := range g.byID { if c…Name == name { dep = c; break } }`)
+		okInline, nPhi := true, 0
+		for _, b := range sortedBlocks(dl.Blocks) {
+			for _, in := range b.Instrs {
+				ph, ok := in.(*ssa.Phi)
+				if !ok || !isNodePtr(ph.Type()) {
+					continue
+				}
+				for k, ed := range ph.Edges {
+					ev := ir.Resolve(ed)
+					if ir.IsNilConst(ev) {
+						continue
+					}
+					if _, isPhi := ev.(*ssa.Phi); isPhi {
+						continue
+					}
+					nPhi++
+					has := false
+					for _, l := range e.DCSPhiEdge(b, k) {
+						if l.Kind != "cmp" || l.Op != token.EQL {
+							continue
+						}
+						for _, sw := range [2]bool{false, true} {
+							x, y := l.X, l.Y
+							if sw {
+								x, y = l.Y, l.X
+							}
+							if pa, okp := e.C.PathOf(x); okp && pa.Suffix("Step.Name") && isEntry(y) {
+								has = true
+							}
+						}
+					}
+					if !has {
+						okInline = false
+					}
+				}
+			}
+		}
+		if nPhi > 0 {
+			r.Check(okInline, "graph setup: a Depends entry is resolved to the step of exactly that name", e.Pos(setup.Pos()),
+				"the walk that turns a `depends` entry into a node keeps a candidate without its name being equal to the entry")
+			return
+		}
+		r.Unknown("graph setup: a Depends entry is resolved to the step of exactly that name", e.Pos(setup.Pos()), "no call or map lookup in the loop over Step.Depends takes the entry and yields a node")
+	}
+}
+
+// lookupOf: v is (an extract of / a load of) a map lookup.
+func lookupOf(v ssa.Value) (*ssa.Lookup, bool) {
+	v = ir.Resolve(v)
+	if ex, ok := v.(*ssa.Extract); ok {
+		v = ex.Tuple
+	}
+	lk, ok := v.(*ssa.Lookup)
+	return lk, ok
 }
 
 func c01FlipFirst(e *Env, s *Sched) {
